@@ -23,7 +23,7 @@ chunk index (unit)
 
 ranged pipeline (system)
 * `rw.reset maxChunkSize` · `rw.write ts:msgLen:fldLen[*N],…` → OnWrite calls, start/end, `CORRUPTED c,…`
-* `rw.writenoindex …` (journal only: the writer is parked before `onWriteCIndex`)
+* `rw.writenoindex …` (journal only: the writer is parked before `onWriteCIndex`) · `rw.notify` (the parked notifications are delivered)
 * `rw.rebuild <dense chunk id|all>` · `rw.autorebuild` (rebuild the chunks the last write reported corrupted) · `rw.hull` → `cid:cnt:min:max …` · `rw.points cid`
 * `r.windows lo hi` → `cid:minPos:maxPos:count …` of a fresh selector (bounds `none` = absent)
 * `r.scan lo hi page` → `got=<runs> spec=<runs> cls=<2,3,41,4,24> fix2=<0|1|-> fix3=<0|1|-> fix23=<0|1|-> fix41=<0|1|-> fixset=<smallest set of repairs {3,2,41} that restores the specification answer|->`
@@ -50,6 +50,7 @@ structure DS where
   layout : Option (Selector.Journal × Array (Array Int) × Array Nat) := none
   rg : Option RangedIter.St := none
   pendingReb : List Nat := []
+  pendingCalls : List (Nat × Nat × Nat × Int × Int) := []   -- OnWrite calls of a `rw.writenoindex` batch not yet delivered
   ph : List PartHist.PChunk := []     -- the Points-level partition model of the history theorem (`PartHist`)
   phLive : Bool := true              -- no rebuild has happened yet (PartHist has no rebuild step)
 
@@ -193,7 +194,13 @@ def step (d : DS) (toks : List String) : DS × String :=
     -- the records are in the journal (readable) but `onWriteCIndex` has not run yet (writer parked before it)
     let recs := parseRecs spec
     let (j', out) := WriteLoop.serviceWrite d.wj recs
-    ({ d with wj := j', allTs := d.allTs ++ (recs.map (·.ts)).toArray, batches := (recs.map (·.ts)) :: d.batches, layout := none }, WriteLoop.render out)
+    ({ d with wj := j', allTs := d.allTs ++ (recs.map (·.ts)).toArray, batches := (recs.map (·.ts)) :: d.batches, layout := none, pendingCalls := out.calls, phLive := false }, WriteLoop.render out)
+  | ["rw.notify"] =>
+    -- the parked writer continues: its OnWrite notifications reach the chunk index now
+    let app (ci : CIndex.St) : CIndex.St := d.pendingCalls.foldl (fun ci (call : Nat × Nat × Nat × Int × Int) =>
+        let (fi, la, cid, mn, mx) := call
+        (CIndex.onWrite ci fi la cid mn mx).1) ci
+    ({ d with rcidx := app d.rcidx, rcidx2 := app d.rcidx2, rcidx3 := app d.rcidx3, rcidx4 := app d.rcidx4, pendingCalls := [] }, "ok")
   | ["rw.write", spec] =>
     let recs := parseRecs spec
     let (j', ci', out, bad) := RangedIter.write d.wj d.rcidx recs
